@@ -512,6 +512,7 @@ def leg_t_contexts(ck: Check, drv: Driver, workdir, full, escalated=False):
     java = java_eval(workdir, "CX", exprs)
     real = ["text=%s | java=%s" % (real_text[i], java[i]) for i in range(len(reqs))]
     ck.compare("writer contexts text/java", reqs, real, model)
+    c21_jexpr.leg_fragment(ck, drv, "writer contexts as IR tree (ofExpr, print_parse)", reqs, real_text)
     for i, (spec, c, i1, l1) in enumerate(meta):
         if java[i] != oracle[i]:
             ck.fail({"kind": "context", "context": list(spec), "constant": c, "v1_int": i1, "v1_long": l1},
@@ -638,6 +639,7 @@ def leg_t(ck: Check, drv: Driver, workdir):
     java = java_eval(workdir, "TT", exprs)
     real = ["text=%s | java=%s | dalvik=%s" % (texts[i], java[i], dalv[i]) for i in range(len(meta))]
     ck.compare("per-instruction text/java/dalvik", reqs, real, model)
+    c21_jexpr.leg_fragment(ck, drv, "per-instruction expression as IR tree (ofExpr, print_parse)", reqs, texts)
     # S on the same samples: the real text, run by the real JVM, must agree with the independent interpreter
     for i, m in enumerate(meta):
         if java[i] != dalv[i]:
